@@ -315,8 +315,12 @@ D6_WHY = "bytes of another TCP connection of the component were spliced into the
 def oracle(line, out, meta):
     """Implementation-side oracle, independent of the model.  Returns (why | None, trigger | None, info for the tie)."""
     cid, toks = parse_out(out)
+    for t in toks:
+        if t.startswith("ICEDELIV"):
+            return "the receive callback fired before the component was READY: ICE control traffic reached the application (%s)" % t[:80], None, None
     if not toks or toks[0] != "READY":
-        return "the two agents did not reach READY over loopback TCP (%s)" % (toks[0] if toks else "no output"), None, None
+        # reaching READY is C01's business; without a connection there is nothing to observe here
+        return None, "not-ready", None
     cfg = meta["cfg"]
     bs = cfg["b"] == 1
     mops = [m for m in meta["ops"]]
@@ -754,6 +758,7 @@ def tcp_part(chk):
             chk.violation({"kind": "impl-crash", "what": "tcp-C02", "case": cases[idx][0], "rc": rc, "stderr": se[-3000:]},
                           "tcp-C02: implementation crashed or sanitizer report (rc=%s) on case: %s\n%s" % (rc, cases[idx][0][:300], se[-1500:]))
     send_items, cb_items, rm_items = [], [], []
+    n_notready = 0
     ntie_cases = 0
     tie_budget = 60 if chk.tier == "quick" else 1500
     for k, (line, kind, meta) in enumerate(cases):
@@ -766,6 +771,9 @@ def tcp_part(chk):
         if k < 2:
             chk.sample({"case": line[:300], "impl": out[:300]})
         why, trigger, info = oracle(line, out, meta)
+        if trigger == "not-ready":
+            n_notready += 1
+            continue
         if why:
             nviol += 1
             if nviol <= 40:
@@ -800,6 +808,9 @@ def tcp_part(chk):
             it = rm_item(meta, info, b)
             if it:
                 rm_items.append(it)
+    chk.cov["correspondence"]["tcp-C02-not-ready"] = n_notready
+    if n_notready * 10 > len(cases):
+        chk.broken_obligation("harness:tcp-C02", "%d of %d cases did not reach READY over loopback TCP: the harness cannot observe the data path" % (n_notready, len(cases)))
     run_tie(chk, send_items, cb_items, "tcp-C02", rm_items)
 
 
